@@ -22,16 +22,26 @@
       4d: every BLK / REP block of a file not flagged DAMAGED hashes to its recorded hash at the end of the run (any stripe).
       4e: a file that was intact in the damaged array is not touched at all and not flagged.
 
+   4f-4h. a file flagged DAMAGED is reported (status:unrecoverable in the log), renamed away, counted, failing exit status (4f);
+      under collision freedom AT the recorded hashes (collision_free_blk) every BLK / REP block of ANY stripe is in a DAMAGED file
+      or IS the recorded block (4g); 4h = C05_pending_fix_never_wrong, the property on the model: see its comment for what "the
+      recorded block" means for BLK, REP and CHG blocks.
+   4i-4j. "reported recovered": status:recovered:<disk>:<file> is in the log iff at the end the file is flagged FIXED and not DAMAGED
+      (4i), hence the property phrased with the tag (4j).
+   4k. the recorded SIZE: a file not flagged DAMAGED is present at the end under its name with exactly its recorded size, whatever
+      its size in the damaged array (larger: cut back at the first open; shorter or missing: grown by the writes of the rebuilt
+      blocks).  4h and 4j include it.
+   4l-4m. "reported unrecoverable": status:unrecoverable:<disk>:<file> is in the log iff at the end the file is flagged DAMAGED
+      (4l: 4f and its converse), and every status:unrecoverable line of the log is for a file of the content file flagged DAMAGED
+      (4m: none for any other name).
    5. mixed arrays: a block of an ENTIRELY SYNCED stripe, in an array whose other stripes may hold pending changes, belongs at the
       end to a file flagged DAMAGED or is exactly the recorded block (the recorded vectors, the padding and collision freedom are
       asked of the synced stripes only: synced_part, collision_free_synced).
 
-   WHAT IS MISSING for the full statement (hence `_partial`): (i) at BLK positions the final block is shown to PASS THE RECORDED
-   HASH (statement 4d; written blocks up to the zero padding of handle_write), not to BE the recorded block: that last step is
-   collision freedom of the hash on that one block (for the synced stripes statement 5 and for fully synced arrays
-   C05_fix_run_sound state it with the explicit collision-freedom hypotheses); (ii) the link between the status:recovered tag and
-   the flags is not stated: "reported recovered" is rendered as "not flagged DAMAGED" (4, 4b, 4d) or "exit status 0" (4c);
-   (iii) the recorded SIZE of the files that the run rewrites is not tracked (for the files it does not touch: statement 4e).
+   WHAT REMAINS OUTSIDE (the `_partial` names of 4b / 4c are kept for continuity; 4h has none): the time stamps / inode of the
+   files that the run rewrites are not stated here (for the files it does not touch: statement 4e); options are plain (no -d / -f / -m / -e filter, no -a, no import), hash size full
+   (reduced = false: finding d), and the hypotheses PastHashInvAll (findings b, c are its failures) and geom (the shape of the
+   content file) are assumed, not derived from the history of the array.
    Proofs: Fix/PendingProofs.v.  Non-vacuity and the findings: Fix/PendingExamples.v. *)
 From Coq Require Import NArith ZArith List Bool Arith Lia.
 From Snap.Array Require Import ArrayDefs SyncModel.
@@ -220,6 +230,7 @@ Print Assumptions C05_pending_fix_run_blk_exact.
        whatever the block map (pending changes anywhere) and whatever the damage, after fix every file recorded in the content file
        is EITHER reported unrecoverable (DAMAGED flag, status:unrecoverable line, renamed away, counted, failing exit status) OR left
        under its name, not flagged, with
+         - exactly its recorded size;
          - at every block WITH a recorded hash (BLK; REP, whose hash is inherited from the source of the copy) exactly the
            recorded block;
          - at every CHG block -- a block WITHOUT a recorded hash: the content file only knows the past hash of what the parity
@@ -241,6 +252,7 @@ Theorem C05_pending_fix_never_wrong :
           /\ fs_find (r_fs (out_st out)) j (cf_name f) = None /\ In (K_ST_UNREC, [N.of_nat j; cf_name f]) (r_tags (out_st out))
           /\ r_unrec (out_st out) <> 0 /\ out_fail out = true)
          \/ (fl_damaged (get_fl (r_flags (out_st out)) (j, cf_name f)) = false
+             /\ (exists g, fs_find (r_fs (out_st out)) j (cf_name f) = Some g /\ ff_size g = cf_size f)
              /\ (fb_state b <> SChg -> fblk (r_fs (out_st out)) j (cf_name f) i = rb p j)
              /\ (fb_state b = SChg ->
                    fblk (r_fs (out_st out)) j (cf_name f) i = fblk fs j (cf_name f) i
@@ -248,6 +260,85 @@ Theorem C05_pending_fix_never_wrong :
                                 /\ forall l v, nth p (nth l par []) PNone = PEnc v -> x <> vnth v j)).
 Proof. exact run_fix_never_wrong. Qed.
 Print Assumptions C05_pending_fix_never_wrong.
+
+(* 4i. "reported recovered".  What check_run really does: file_post, at the LAST block of a file, says status:recovered for it iff
+       the file is flagged FIXED (a block of it was rebuilt and written by this run, or the file was cut back to its recorded size
+       at its first open) and not DAMAGED; nothing else in the stripe loop says status:recovered (the walk of FlagWalk.v replayed
+       for that tag), the empty files / links say it for other names.  Over the whole run: status:recovered:<disk>:<file> is in
+       the log exactly when, at the end, the file is flagged FIXED and not DAMAGED *)
+Theorem C05_pending_fix_run_recovered_iff :
+  forall (hashf : bid -> N -> hval) (padz : bid -> N -> bool) (truncf : bid -> N -> bid) (bs : N) (nlev : nat)
+         (newino : nat -> N -> N) (now : Z) (o : copts) (c : content) (bm : nat) (fs : list (option fsdisk)) (par : parity) (objs : list obj),
+    plain nlev o -> co_fix o = true -> geom bs c bm -> c_blockmax c = bm ->
+    length fs = length (c_disks c) -> nlev <= length par -> objs_ok c objs ->
+    let out := check_run hashf padz truncf bs nlev false newino now o c par fs objs (seq 0 bm) in
+    forall p j f i b, slot_of c p j = SFile f i b ->
+      (In (K_ST_RECOVERED, [N.of_nat j; cf_name f]) (r_tags (out_st out)) <->
+       fl_fixed (get_fl (r_flags (out_st out)) (j, cf_name f)) = true /\ fl_damaged (get_fl (r_flags (out_st out)) (j, cf_name f)) = false).
+Proof. exact run_fix_recovered_iff. Qed.
+Print Assumptions C05_pending_fix_run_recovered_iff.
+
+(* 4j. the property phrased with the tag, as Properties_C05.v's said_recovered does: a file REPORTED RECOVERED is present with its
+       recorded size and holds at every block with a recorded hash the recorded block, and at every CHG block the block of the disk or a rebuilt block that is not the stale
+       old block *)
+Theorem C05_pending_fix_recovered_never_wrong :
+  forall (hashf : bid -> N -> hval) (padz : bid -> N -> bool) (truncf : bid -> N -> bid) (bs : N) (nlev : nat)
+         (newino : nat -> N -> N) (now : Z) (o : copts) (c : content) (bm : nat) (fs : list (option fsdisk)) (par : parity) (objs : list obj)
+         (rb : nat -> nat -> bid),
+    plain nlev o -> co_fix o = true -> geom bs c bm -> c_blockmax c = bm ->
+    length fs = length (c_disks c) -> nlev <= length par -> objs_ok c objs ->
+    PastHashInvAll hashf padz bs c par -> collision_free_blk hashf padz bs c bm rb ->
+    let out := check_run hashf padz truncf bs nlev false newino now o c par fs objs (seq 0 bm) in
+    forall p j f i b, slot_of c p j = SFile f i b -> In (K_ST_RECOVERED, [N.of_nat j; cf_name f]) (r_tags (out_st out)) ->
+      (exists g, fs_find (r_fs (out_st out)) j (cf_name f) = Some g /\ ff_size g = cf_size f)
+      /\ (fb_state b <> SChg -> fblk (r_fs (out_st out)) j (cf_name f) i = rb p j)
+      /\ (fb_state b = SChg ->
+            fblk (r_fs (out_st out)) j (cf_name f) i = fblk fs j (cf_name f) i
+            \/ exists x, fblk (r_fs (out_st out)) j (cf_name f) i = wbv padz truncf bs f i x
+                         /\ forall l v, nth p (nth l par []) PNone = PEnc v -> x <> vnth v j).
+Proof. exact run_fix_recovered_never_wrong. Qed.
+Print Assumptions C05_pending_fix_recovered_never_wrong.
+
+(* 4k. the recorded size of the files the run leaves not flagged *)
+Theorem C05_pending_fix_run_size_exact :
+  forall (hashf : bid -> N -> hval) (padz : bid -> N -> bool) (truncf : bid -> N -> bid) (bs : N) (nlev : nat)
+         (newino : nat -> N -> N) (now : Z) (o : copts) (c : content) (bm : nat) (fs : list (option fsdisk)) (par : parity) (objs : list obj),
+    plain nlev o -> co_fix o = true -> geom bs c bm -> c_blockmax c = bm ->
+    length fs = length (c_disks c) -> nlev <= length par -> objs_ok c objs ->
+    let out := check_run hashf padz truncf bs nlev false newino now o c par fs objs (seq 0 bm) in
+    forall p j f i b, slot_of c p j = SFile f i b ->
+      fl_damaged (get_fl (r_flags (out_st out)) (j, cf_name f)) = false ->
+      exists g, fs_find (r_fs (out_st out)) j (cf_name f) = Some g /\ ff_size g = cf_size f.
+Proof. exact run_fix_size_exact. Qed.
+Print Assumptions C05_pending_fix_run_size_exact.
+
+(* 4l. "reported unrecoverable".  What check_run really does: file_post, at the LAST block of a file flagged DAMAGED, renames it
+       away and says status:unrecoverable; nothing else in the run says it (the walk replayed for that tag; the empty files /
+       links never say it); DAMAGED is never reset.  Over the whole run: the line is in the log exactly when the file is
+       flagged DAMAGED at the end *)
+Theorem C05_pending_fix_run_unrec_iff :
+  forall (hashf : bid -> N -> hval) (padz : bid -> N -> bool) (truncf : bid -> N -> bid) (bs : N) (nlev : nat)
+         (newino : nat -> N -> N) (now : Z) (o : copts) (c : content) (bm : nat) (fs : list (option fsdisk)) (par : parity) (objs : list obj),
+    plain nlev o -> co_fix o = true -> geom bs c bm -> c_blockmax c = bm ->
+    length fs = length (c_disks c) -> nlev <= length par -> objs_ok c objs ->
+    let out := check_run hashf padz truncf bs nlev false newino now o c par fs objs (seq 0 bm) in
+    forall p j f i b, slot_of c p j = SFile f i b ->
+      (In (K_ST_UNREC, [N.of_nat j; cf_name f]) (r_tags (out_st out)) <-> fl_damaged (get_fl (r_flags (out_st out)) (j, cf_name f)) = true).
+Proof. exact run_fix_unrec_iff. Qed.
+Print Assumptions C05_pending_fix_run_unrec_iff.
+
+(* 4m. no status:unrecoverable line for any other name *)
+Theorem C05_pending_fix_run_unrec_only :
+  forall (hashf : bid -> N -> hval) (padz : bid -> N -> bool) (truncf : bid -> N -> bid) (bs : N) (nlev : nat)
+         (newino : nat -> N -> N) (now : Z) (o : copts) (c : content) (bm : nat) (fs : list (option fsdisk)) (par : parity) (objs : list obj),
+    plain nlev o -> co_fix o = true -> geom bs c bm -> c_blockmax c = bm ->
+    length fs = length (c_disks c) -> nlev <= length par -> objs_ok c objs ->
+    let out := check_run hashf padz truncf bs nlev false newino now o c par fs objs (seq 0 bm) in
+    forall t, fst t = K_ST_UNREC -> In t (r_tags (out_st out)) ->
+      exists p j f i b, slot_of c p j = SFile f i b /\ t = (K_ST_UNREC, [N.of_nat j; cf_name f])
+                        /\ fl_damaged (get_fl (r_flags (out_st out)) (j, cf_name f)) = true.
+Proof. exact run_fix_unrec_only. Qed.
+Print Assumptions C05_pending_fix_run_unrec_only.
 
 (* 5. mixed arrays: the blocks of the entirely synced stripes *)
 Theorem C05_pending_fix_run_synced_stripes :
@@ -316,6 +407,7 @@ Example C05_pending_example_never_wrong :
         /\ fs_find (r_fs (out_st out)) j (cf_name f) = None /\ In (K_ST_UNREC, [N.of_nat j; cf_name f]) (r_tags (out_st out))
         /\ r_unrec (out_st out) <> 0 /\ out_fail out = true)
        \/ (fl_damaged (get_fl (r_flags (out_st out)) (j, cf_name f)) = false
+           /\ (exists g, fs_find (r_fs (out_st out)) j (cf_name f) = Some g /\ ff_size g = cf_size f)
            /\ (fb_state b <> SChg -> fblk (r_fs (out_st out)) j (cf_name f) i = px_rb p j)
            /\ (fb_state b = SChg ->
                  fblk (r_fs (out_st out)) j (cf_name f) i = fblk px_fs2 j (cf_name f) i
@@ -323,6 +415,47 @@ Example C05_pending_example_never_wrong :
                               /\ forall l v, nth p (nth l px_par []) PNone = PEnc v -> x <> vnth v j)).
 Proof. exact px_fix_never_wrong. Qed.
 Print Assumptions C05_pending_example_never_wrong.
+Example C05_pending_example_recovered_iff :
+  let out := check_run w_hashf w_padz w_truncf 1024 2 false w_newino 999 x_fix px_c px_par px_fs2 [] (seq 0 2) in
+  (In (K_ST_RECOVERED, [0; 2]%N) (r_tags (out_st out)) <->
+   fl_fixed (get_fl (r_flags (out_st out)) (0, 2%N)) = true /\ fl_damaged (get_fl (r_flags (out_st out)) (0, 2%N)) = false)
+  /\ (In (K_ST_RECOVERED, [0; 1]%N) (r_tags (out_st out)) <->
+      fl_fixed (get_fl (r_flags (out_st out)) (0, 1%N)) = true /\ fl_damaged (get_fl (r_flags (out_st out)) (0, 1%N)) = false).
+Proof. exact px_fix_run_recovered_iff. Qed.
+Print Assumptions C05_pending_example_recovered_iff.
+Example C05_pending_example_recovered_computed :
+  let out := check_run w_hashf w_padz w_truncf 1024 2 false w_newino 999 x_fix px_c px_par px_fs2 [] (seq 0 2) in
+  filter (fun t => N.eqb (fst t) K_ST_RECOVERED || N.eqb (fst t) K_ST_UNREC) (r_tags (out_st out))
+  = [(K_ST_UNREC, [0; 1]%N); (K_ST_RECOVERED, [0; 2]%N)].
+Proof. exact px_fix_run_recovered_computed. Qed.
+Print Assumptions C05_pending_example_recovered_computed.
+(* the size: file 2 truncated to nothing (px_fs3) or grown to two blocks (px_fs4) ends with its recorded 1024 bytes and block *)
+Example C05_pending_example_size_exact :
+  forall fs, fs = px_fs3 \/ fs = px_fs4 ->
+  let out := check_run w_hashf w_padz w_truncf 1024 2 false w_newino 999 x_fix px_c px_par fs [] (seq 0 2) in
+  forall p j f i b, slot_of px_c p j = SFile f i b ->
+    fl_damaged (get_fl (r_flags (out_st out)) (j, cf_name f)) = false ->
+    exists g, fs_find (r_fs (out_st out)) j (cf_name f) = Some g /\ ff_size g = cf_size f.
+Proof. exact px_fix_size_exact. Qed.
+Print Assumptions C05_pending_example_size_exact.
+Example C05_pending_example_size_computed :
+  let out3 := check_run w_hashf w_padz w_truncf 1024 2 false w_newino 999 x_fix px_c px_par px_fs3 [] (seq 0 2) in
+  let out4 := check_run w_hashf w_padz w_truncf 1024 2 false w_newino 999 x_fix px_c px_par px_fs4 [] (seq 0 2) in
+  (option_map ff_size (fs_find (r_fs (out_st out3)) 0 2%N) = Some 1024%N /\ option_map ff_blocks (fs_find (r_fs (out_st out3)) 0 2%N) = Some [12%N]
+   /\ fl_damaged (get_fl (r_flags (out_st out3)) (0, 2%N)) = false)
+  /\ (option_map ff_size (fs_find (r_fs (out_st out4)) 0 2%N) = Some 1024%N /\ option_map ff_blocks (fs_find (r_fs (out_st out4)) 0 2%N) = Some [12%N]
+      /\ fl_damaged (get_fl (r_flags (out_st out4)) (0, 2%N)) = false).
+Proof. exact px_fix_size_computed. Qed.
+Print Assumptions C05_pending_example_size_computed.
+Example C05_pending_example_unrec_iff :
+  let out := check_run w_hashf w_padz w_truncf 1024 2 false w_newino 999 x_fix px_c px_par px_fs2 [] (seq 0 2) in
+  (In (K_ST_UNREC, [0; 1]%N) (r_tags (out_st out)) <-> fl_damaged (get_fl (r_flags (out_st out)) (0, 1%N)) = true)
+  /\ (In (K_ST_UNREC, [0; 2]%N) (r_tags (out_st out)) <-> fl_damaged (get_fl (r_flags (out_st out)) (0, 2%N)) = true)
+  /\ forall t, fst t = K_ST_UNREC -> In t (r_tags (out_st out)) ->
+        exists p j f i b, slot_of px_c p j = SFile f i b /\ t = (K_ST_UNREC, [N.of_nat j; cf_name f])
+                          /\ fl_damaged (get_fl (r_flags (out_st out)) (j, cf_name f)) = true.
+Proof. exact px_fix_run_unrec_iff. Qed.
+Print Assumptions C05_pending_example_unrec_iff.
 Example C05_pending_example_mixed_computed :
   let out := check_run w_hashf w_padz w_truncf 1024 2 false w_newino 999 x_fix px_c px_par px_fs2 [] (seq 0 2) in
   fs_find (r_fs (out_st out)) 0 2%N = Some (mkFF 2 1024 100 0 902 [12%N])
